@@ -390,6 +390,49 @@ example : ∃ row, smtSub (prebuildFlat { ees := [], classes := ["DOG"] }
     (.cons (.create "d" "DOG") (.cons (.assign (.var "n") (.int "1")) (.cons (.delete "d") .nil)))
     (by decide) (by decide) 1 0 none (by decide)
 
+/-- the R661 chain of the body's outer block AS A LIST (`chainOf`: the first statement by the R602 first_filter, then
+    `one(act_smt).ACT_SMT[661, 'precedes']()` until there is none; fuel = number of rows), for every `coreB` body:
+    it is exactly the list of ACT_SMT rows the builder created for the statements of the body, in source order
+    (`stmtIds`), one per statement; every listed row is an ACT_SMT of the outer block whose Previous_Statement_ID
+    names the row listed before it — none for the first (`linked`: one first, source order, and the chain ends
+    after the last: one last); and the list is strictly increasing (no statement twice: no cycle).
+    `_partial`: statement kinds outside `coreB` (nested blocks) are not covered. -/
+theorem block_chain_is_statement_list_partial (fc : FCtx) (a : Block) (hc : coreB a = true) (hok : flatOk fc a = true) :
+    chainOf (prebuildFlat fc a) 0 = stmtIds fc none a bodySt ∧
+    (chainOf (prebuildFlat fc a) 0).length = lenB a ∧
+    linked (prebuildFlat fc a) 0 none (chainOf (prebuildFlat fc a) 0) ∧
+    (chainOf (prebuildFlat fc a) 0).Pairwise (· < ·) := by
+  obtain ⟨h1, h2, h3⟩ := chainOf_prebuildFlat fc a hc (okAll_of_flatOk fc a hc hok)
+  refine ⟨h1, ?_, ?_, ?_⟩
+  · rw [h1]; exact stmtIds_length fc a none bodySt
+  · rw [h1]; exact h2
+  · rw [h1]; exact h3
+
+/-- `create object instance d of DOG; n = 1; delete object instance d;` — statements at rows 1, 5, 13 -/
+example : chainOf (prebuildFlat { ees := [], classes := ["DOG"] }
+      (.cons (.create "d" "DOG") (.cons (.assign (.var "n") (.int "1")) (.cons (.delete "d") .nil)))) 0 = [1, 5, 13] := by
+  decide
+
+example : (chainOf (prebuildFlat { ees := [], classes := ["DOG"] }
+      (.cons (.create "d" "DOG") (.cons (.assign (.var "n") (.int "1")) (.cons (.delete "d") .nil)))) 0).length = 3 :=
+  (block_chain_is_statement_list_partial { ees := [], classes := ["DOG"] }
+    (.cons (.create "d" "DOG") (.cons (.assign (.var "n") (.int "1")) (.cons (.delete "d") .nil)))
+    (by decide) (by decide)).2.1
+
+/-- every statement of the body (every member of the outer block's R661 chain) has EXACTLY ONE R603 subtype row, as a
+    count over the whole population: `(rows.filter (·.smtOf == some i)).length = 1`.
+    `_partial`: `coreB` bodies (statements of nested blocks are outside the subset). -/
+theorem statement_subtype_unique_partial (fc : FCtx) (a : Block) (hc : coreB a = true) (hok : flatOk fc a = true) :
+    ∀ i ∈ chainOf (prebuildFlat fc a) 0, subCount (prebuildFlat fc a) i = 1 := by
+  rw [(chainOf_prebuildFlat fc a hc (okAll_of_flatOk fc a hc hok)).1]
+  exact prebuildFlat_subCount fc a hc (okAll_of_flatOk fc a hc hok)
+
+example : subCount (prebuildFlat { ees := [], classes := ["DOG"] }
+      (.cons (.create "d" "DOG") (.cons (.assign (.var "n") (.int "1")) (.cons (.delete "d") .nil)))) 5 = 1 :=
+  statement_subtype_unique_partial { ees := [], classes := ["DOG"] }
+    (.cons (.create "d" "DOG") (.cons (.assign (.var "n") (.int "1")) (.cons (.delete "d") .nil)))
+    (by decide) (by decide) 5 (by decide)
+
 end Flat
 
 end PyxProps.C06
